@@ -236,6 +236,15 @@ fn check_search_with(scale: f64, initial: f64, target: f64, method: StepSizeAdap
     settings.target_accept = target;
     settings.adapt_options.method = method;
     settings.jitter = None;
+    // non-default estimator options (they play no part in the search itself; the cap is far away)
+    settings.adapt_options.dual_average.k = 0.6;
+    settings.adapt_options.dual_average.t0 = 3.5;
+    settings.adapt_options.dual_average.gamma = 0.3;
+    settings.adapt_options.dual_average.max_step_size = 1e7;
+    settings.adapt_options.adam.beta1 = 0.5;
+    settings.adapt_options.adam.learning_rate = 0.2;
+    let da_opts = settings.adapt_options.dual_average;
+    let adam_opts = settings.adapt_options.adam;
     let mut strat = StepSizeStrategy::new(settings);
     // the search draws its momentum once
     spy.borrow_mut().gaussian_script.push_back(mom.to_vec());
@@ -262,6 +271,39 @@ fn check_search_with(scale: f64, initial: f64, target: f64, method: StepSizeAdap
             replay,
         );
         return;
+    }
+    // ... and it continues with the CONFIGURED estimator options: three updates in lock-step with
+    // the reference recurrence started at the search result
+    {
+        use nuts_rs::verif::AcceptanceRateCollector;
+
+        let mut h_eps = eps;
+        let mut rda = RefDualAverage::new(da_opts.k, da_opts.t0, da_opts.gamma, da_opts.max_step_size, eps);
+        let mut radam = RefAdam::new(adam_opts.beta1, adam_opts.beta2, adam_opts.epsilon, adam_opts.learning_rate, eps);
+        for (i, a) in [0.2, 0.95, 0.5].into_iter().enumerate() {
+            let c = AcceptanceRateCollector::verif_with(a, a, 3, 0.0);
+            strat.update(&c);
+            strat.update_estimator_early();
+            strat.update_stepsize(&mut rng, &mut h, false);
+            let got = h.step_size();
+            let want = if matches!(method, StepSizeAdaptMethod::DualAverage) {
+                rda.advance(a, target);
+                rda.step()
+            } else {
+                radam.advance(a, target);
+                radam.step()
+            };
+            if !mc_core::rel_close(got, want, 1e-10, 0.0) {
+                p.violation(
+                    format!("C07/estimator-after-the-search-ignores-its-configured-options/{key}"),
+                    format!("update {i} after the search (from {h_eps}): step size {got}, the recurrence with the configured options gives {want}"),
+                    replay,
+                );
+                return;
+            }
+            h_eps = got;
+        }
+        *h.step_size_mut() = eps;
     }
     let acc = |e: f64| one_step_accept(scale, &pos, &mom, e, false);
     let a_init = acc(initial);
